@@ -31,6 +31,9 @@ ASSUMPTIONS = [
     'a space is only removed where Python tokenises the text identically with and without it and the neighbours are not both alphanumeric',
 ]
 
+# what a comment may contain: an equals sign and brackets, an apostrophe, a second hash, terms and braces, backticks and quotes
+COMMENT_TEXTS = ['a comment = with (brackets', "last period's wealth", 'was H[-3] + <shock>, see ticket #7', 'uses {alpha} and `code` "quoted', '# doubled hash', 'ends with a backslash \\']
+
 _TOK = re.compile(r'PH\d+|\d+\.\d+|\d+|[A-Za-z_][\w.]*|\*\*|<=|>=|==|!=|[-+*/()<>,]|\S')
 
 
@@ -43,6 +46,7 @@ class Layout:
         self.breaks = set()     # boundary indexes after which the line is broken (requires paren wrapping)
         self.wrap = None        # None | 'rhs' | 'all'
         self.comment = {}       # physical line number within the statement -> comment text
+        self.between = {}       # boundary index of a break -> whole line(s) put between the two continuation lines (blank / comment-only)
 
 
 def atoms_of(eq):
@@ -99,7 +103,7 @@ def render_eq(eq, lay=None):
             gap = ''
         if i in lay.breaks:
             c = lines_comment.pop(line, None)
-            out += ('  # ' + c if c else '') + '\n    '
+            out += ('  # ' + c if c else '') + '\n' + lay.between.get(i, '') + '    '
             line += 1
             gap = ''
         out += gap + parts[i + 1]
@@ -188,9 +192,20 @@ def variants_of_eq(eq):
                     lay.term[i] = {'paren': par}
                     lay.gaps[i - 1] = ''
                     yield ('T6-paren-operand-glued', i, lay)
-    lay = Layout()
-    lay.comment[0] = 'a comment = with (brackets'
-    yield ('T1-trailing-comment', 0, lay)
+    for text in COMMENT_TEXTS:
+        lay = Layout()
+        lay.comment[0] = text
+        yield ('T1-trailing-comment', 0, lay)
+    # T2/T1 inside a statement spread over parentheses: a blank line or a comment-only line between two continuation lines
+    first_break = next((i for i in range(2, n - 1) if atoms[i][0] == 'tok' and re.fullmatch(r'\*\*|<=|>=|==|!=|[-+*/<>,(]|and|or|if|else|not', atoms[i][1])), None)
+    if first_break is not None:
+        for tag, text in (('T2-blank-line-inside', '\n'), ('T2-whitespace-line-inside', '      \n'), ('T1-comment-line-inside', '    # only a comment (\n'),
+                          ('T1-comment-line-inside', "# it's the second part\n")):
+            lay = Layout()
+            lay.wrap = 'rhs'
+            lay.breaks.add(first_break)
+            lay.between[first_break] = text
+            yield (tag, first_break, lay)
 
 
 def all_at_once(eq):
